@@ -201,3 +201,29 @@ def generic_replay(pl, classes=ALL_CLASSES, fingerprint=None):
     found, _ = problems_of(prog, pl['argv'], pl['cfg'], classes)
     fp = fingerprint(pl) if callable(fingerprint) else fingerprint
     return [{'cls': c, 'detail': d, 'fingerprint': fp} for c, d in found]
+
+
+def file_path_problem(src, W, stack=500, unchecked=False):
+    """The same source through the command-line tool (read from a file of a fake file system,
+    SourceCode.from_file) must give byte for byte the assembly the API gives for the string
+    (SourceCode.from_string).  -> (class, detail) or None"""
+    from ..clisim import FakeFS, run_cli
+    from .. import hidc_api
+    try:
+        lines = hidc_api.compile_source(src, word_size=W, stack_size=stack, unchecked=unchecked, lint=False)
+    except Exception:   # noqa: BLE001 - rejected or internal: judged elsewhere
+        return None
+    want = b''.join(l + b'\n' for l in lines)
+    fs = FakeFS({'in.hid': src.encode('utf-8')})
+    args = ['in.hid', '-o', 'out.s', f'-m{8 * W}', f'-s{stack}'] + (['--unchecked'] if unchecked else [])
+    r = run_cli(args, fs)
+    got = fs.files.get('out.s')
+    if r.exception is not None or r.status != 0 or got is None:
+        return ('file-path-differs', f'the API compiles this source but the command-line tool reading it from a file does not: '
+                                     f'status {r.status}, {type(r.exception).__name__ if r.exception else r.stderr[:200]!r}')
+    if got != want:
+        i = next((k for k, (a, b) in enumerate(zip(got, want)) if a != b), min(len(got), len(want)))
+        lo = want.rfind(b'\n', 0, i) + 1
+        return ('file-path-differs', f'assembly from the file differs from the assembly from the string at byte {i}: '
+                                     f'file {got[lo:lo + 80]!r} vs string {want[lo:lo + 80]!r}')
+    return None
